@@ -167,18 +167,34 @@ def run(ctx):
                          observed=M.tolist())
   # failure clause: a solver input that is not positive definite -> RuntimeError, or a finite SPD matrix
   from metric_learn import SDML
-  for rep in range(10 if thorough else 4):
-    data = fits.make_data(rng, d=int(rng.integers(2, 5)))
-    P, y = fits.fit_args('SDML', data)
+  nfc = 160 if thorough else 64
+  for rep in range(nfc):
+    mixed = rep >= (nfc // 8)
+    if not mixed:
+      data = fits.make_data(rng, d=int(rng.integers(2, 5)))
+      P, y = fits.fit_args('SDML', data)
+      bp, sp = float(rng.choice([5.0, 50.0])), 0.01
+    else:
+      # a handful of pairs, one feature recorded in much smaller units than the others (a dissimilar pair dominates
+      # along it): the solver's output then has eigenvalues that are negative only in the last bits of the largest
+      d = int(rng.integers(2, 4))
+      npos, nneg = int(rng.integers(1, 3)), int(rng.integers(1, 3))
+      P = np.round(rng.standard_normal((npos + nneg, 2, d)), 2)
+      y = np.array([1] * npos + [-1] * nneg)
+      P[:, :, int(rng.integers(0, d))] *= float(2.0 ** int(rng.integers(24, 31)))
+      bp, sp = 0.5, float(rng.choice([0.01, 0.3]))
+    ctx.hist('failure_clause.mixed_units', mixed)
     ctx.count('failure_clause', 1)
     try:
       with warnings.catch_warnings():
         warnings.simplefilter('ignore')
-        e = SDML(balance_param=float(rng.choice([5.0, 50.0])), sparsity_param=0.01).fit(P, y)
+        e = SDML(balance_param=bp, sparsity_param=sp).fit(P, y)
       M = e.get_mahalanobis_matrix()
-      if not np.isfinite(M).all() or np.linalg.eigvalsh((M + M.T) / 2).min() < -1e-10 * np.abs(M).max():
-        ctx.fail_input('failure_clause', 'fit returns a matrix that is not finite and PSD instead of raising RuntimeError',
-                       dict(pairs=P.tolist(), y=y.tolist()), observed=M.tolist())
+      L = np.asarray(e.components_)
+      if (not np.isfinite(M).all() or np.linalg.eigvalsh((M + M.T) / 2).min() < -1e-10 * np.abs(M).max()
+          or L.shape[0] != L.shape[1] or not (np.linalg.svd(L, compute_uv=False).min() > 0)):     # singular: not positive DEFINITE
+        ctx.fail_input('failure_clause', 'fit returns a matrix that is not finite and positive definite instead of raising RuntimeError',
+                       dict(pairs=P.tolist(), y=y.tolist(), balance_param=bp, sparsity_param=sp), observed=M.tolist())
       ctx.hist('failure_clause', 'returned SPD')
     except RuntimeError:
       ctx.hist('failure_clause', 'RuntimeError')
